@@ -22,7 +22,7 @@ def run(ctx):
     ctx.rule = ('one case = (graph class, start, table, mode, message): real encode then real decode with the same arguments must '
                 'return the message bit for bit; per distinct strand additionally with a VT check of length 1,2,3,5 produced at '
                 'encoding and supplied at decoding; differential run with garbage in unreachable rows; distinct by construction '
-                '(canonical classes); every case counted as state')
+                '(canonical classes); states = cases; non-trivial = message with at least one 1 bit (non-empty strand)')
     ctx.assumptions = ['well-formedness decided by the reference (every reachable vertex has an arc and reaches a branching vertex)',
                        'the check depends only on the strand, so check lengths are crossed with distinct strands per worker, not with every case',
                        'tables beyond the three fixed ones only on classes with <= 2 reachable vertices (quick) / one deviant vertex (thorough)']
